@@ -368,4 +368,144 @@ def checkMatched (x : MatchCtx) (ownersOK : Bool) : Bool :=
     else true
   else false
 
+/-! ### the scheduling cycle: BeforePreFilter -> PreFilter -> Filter -> NominateReservation -> Reserve -> Unreserve
+    (transformer.go prepareMatchReservationStateForNormalPod, plugin.go PreFilter / Filter / filterWithReservations /
+    fitsNodeAndReservation / fitsNode / FilterNominateReservation / Reserve / Unreserve, nominator.go NominateReservation).
+    One node; no preemption state, no ports, no reserve / operating / ignored pods, default feature gates. -/
+
+/-- what the harness tells about one reservation with respect to the pod being scheduled -/
+structure CandIn where
+  uid       : Nat
+  ownerOK   : Bool   -- the single owner entry (a label selector) is satisfied
+  nameMatch : Bool   -- the affinity names this reservation
+  affOK     : Bool   -- MatchReservationAffinity (selector on the reservation's labels)
+
+structure CycIn where
+  pod       : Pod
+  qHas      : Mask   -- the request key is declared (also with amount 0)
+  hasAff    : Bool   -- the pod carries a reservation affinity
+  hasName   : Bool   -- ... that names a reservation
+  node      : Nat
+  nAlloc    : Vec    -- node allocatable
+  nTotal    : Vec    -- NodeInfo.Requested of the snapshot (reserve pods + assigned pods + other pods)
+  cands     : List CandIn
+  chosen    : Nat    -- the reservation the implementation nominated; ONLY used to resolve a tie of >= 2 passing candidates
+  unreserve : Bool
+
+def candOf (x : CycIn) (u : Nat) : CandIn :=
+  match x.cands.find? (fun k => k.uid == u) with
+  | some k => k
+  | none => { uid := u, ownerOK := false, nameMatch := false, affOK := false }
+
+def matchedBy (x : CycIn) (r : RInfo) : Bool :=
+  let k := candOf x r.uid
+  checkMatched { ignored := false, hasName := x.hasName, nameMatch := k.nameMatch, exact := true, unschedulable := false,
+                 tolerateUnsch := false, taintBad := false, affinity := k.affOK }
+    (matchOwners r.parseErr [{ obj := true, ctrl := true, lbl := k.ownerOK }])
+
+/-- the reservations ForEachMatchableReservationOnNode hands out (the matchable INDEX, not IsMatchable) -/
+def iterated (c : Cache) (n : Nat) : List RInfo :=
+  (forEachMatchable c n).filterMap (fun u => findInfo c u)
+
+/-- nodeReservationState.matchedOrIgnored / .unmatched (snapshots of the cache at BeforePreFilter time) -/
+def matchedOf (c : Cache) (x : CycIn) : List RInfo := (iterated c x.node).filter (fun r => matchedBy x r)
+def unmatchedOf (c : Cache) (x : CycIn) : List RInfo :=
+  (iterated c x.node).filter (fun r => !matchedBy x r && r.assigned.length > 0)
+
+def sumAllocated (rs : List RInfo) : Vec := fun d => rs.foldl (fun s r => s + r.allocated d) 0
+
+/-- nodeRState.podRequested: the snapshot's Requested minus what the pods of unmatched reservations hold -/
+def podRequestedOf (c : Cache) (x : CycIn) : Vec := fun d => x.nTotal d - sumAllocated (unmatchedOf c x) d
+/-- nodeRState.rAllocated -/
+def rAllocatedOf (c : Cache) (x : CycIn) : Vec := sumAllocated (matchedOf c x)
+
+/-- ReservationInfo.GetAvailable: (Allocatable - Allocated - Reserved)+ -/
+def remOf (r : RInfo) : Vec := fun d => let v := r.alloc d - r.allocated d - r.reserved d; if v > 0 then v else 0
+
+/-- fitsNode (plugin.go:915) without the pod-count line; dimension 2 is a scalar resource (checked when declared) -/
+def fitsNodeM (x : CycIn) (pr ra rem : Vec) : Bool :=
+  let q := x.pod.req
+  if q 0 == 0 && q 1 == 0 && !(x.qHas 2) then true
+  else
+    let ok (d : Nat) : Bool := !(decide (q d > x.nAlloc d - (pr d - rem d - ra d)))
+    ok 0 && ok 1 && (!(x.qHas 2) || ok 2)
+
+/-- the two `continue`s at the head of the loop of filterWithReservations -/
+def skipR (x : CycIn) (r : RInfo) : Bool :=
+  (!x.hasAff && !(anyDim (fun d => r.names d && x.qHas d))) || (x.hasName && !(candOf x r.uid).nameMatch)
+
+/-- fitsNodeAndReservation: (insufficient by node, insufficient by reservation) -/
+def fitNR (c : Cache) (x : CycIn) (r : RInfo) : Bool × Bool :=
+  let nodeBad := !(fitsNodeM x (podRequestedOf c x) (rAllocatedOf c x) (remOf r))
+  if r.policy == 2 then
+    let rsvBad := !(fitOK (fitsReservation r x.pod.req vzero 0))
+    if !nodeBad && !rsvBad then (false, false) else (nodeBad, rsvBad)
+  else (nodeBad, false)
+
+def fitsBoth (c : Cache) (x : CycIn) (r : RInfo) : Bool := !(fitNR c x r).1 && !(fitNR c x r).2
+
+/-- filterWithReservations: 0 = success, 1 = Unschedulable -/
+def filterWR (c : Cache) (x : CycIn) (ms : List RInfo) (required : Bool) : Nat :=
+  let live := ms.filter (fun r => !skipR x r)
+  if live.any (fun r => fitsBoth c x r) then 0
+  else if required then 1
+  else if live.any (fun r => (fitNR c x r).1) then 1
+  else if fitsNodeM x (podRequestedOf c x) (rAllocatedOf c x) vzero then 0 else 1
+
+/-- does the node get a nodeReservationState? -/
+def hasNodeState (c : Cache) (x : CycIn) : Bool :=
+  !(matchedOf c x).isEmpty || (!x.hasAff && !(unmatchedOf c x).isEmpty)
+
+/-- PreFilter: 0 = success, 1 = Skip, 2 = UnschedulableAndUnresolvable -/
+def preFilterM (c : Cache) (x : CycIn) : Nat :=
+  if hasNodeState c x then 0 else if x.hasAff then 2 else 1
+
+/-- Filter: 0 = success, 1 = Unschedulable, 2 = UnschedulableAndUnresolvable -/
+def filterM (c : Cache) (x : CycIn) : Nat :=
+  if (matchedOf c x).isEmpty then (if x.hasAff then 2 else 0)
+  else filterWR c x (matchedOf c x) x.hasAff
+
+/-- FilterNominateReservation (the allocate-once gate, then filterWithReservations on the single reservation) -/
+def nomFilterOK (c : Cache) (x : CycIn) (r : RInfo) : Bool :=
+  !(nominateGate r) && filterWR c x [r] true == 0
+
+inductive Nom where
+  | none
+  | one (u : Nat)
+  | among (us : List Nat)
+
+/-- Plugin.NominateReservation AS WRITTEN: a single candidate of a pod WITH reservation affinity is returned
+    without running the nominate filters, but behind the allocate-once gate (repair fb4a3dc; `gated := false` is
+    the shape before the repair, kept for the counterexample) -/
+def nominateG (gated : Bool) (c : Cache) (x : CycIn) : Nom :=
+  match matchedOf c x with
+  | [] => .none
+  | [r] =>
+    if x.hasAff then (if gated && nominateGate r then .none else .one r.uid)
+    else if nomFilterOK c x r then .one r.uid else .none
+  | ms =>
+    match ms.filter (fun r => nomFilterOK c x r) with
+    | [] => .none
+    | [r] => .one r.uid
+    | ps => .among (ps.map (·.uid))
+
+def nominateM (c : Cache) (x : CycIn) : Nom := nominateG true c x
+
+/-- the uid Reserve assumes the pod into (0 = none); a tie is resolved by what the implementation chose -/
+def nomUid (x : CycIn) : Nom → Nat
+  | .none => 0
+  | .one u => u
+  | .among us => if us.contains x.chosen then x.chosen else 0
+
+/-- Reserve: status 0 = success, 1 = Unschedulable (affinity but nothing nominated), 3 = error of assumePods -/
+def reserveM (c : Cache) (x : CycIn) (u : Nat) : Cache × Nat :=
+  if u == 0 then (c, if x.hasAff then 1 else 0)
+  else
+    let (c', e) := addPods c u [x.pod]
+    (c', if e == 0 then 0 else 3)
+
+/-- Unreserve: forgetPods on the assumed reservation -/
+def unreserveM (c : Cache) (x : CycIn) (u : Nat) (rsvCode : Nat) : Cache :=
+  if u != 0 && rsvCode == 0 then deletePods c u [x.pod.uid] else c
+
 end KoordVerif.C05
